@@ -1033,6 +1033,8 @@ class Analyzer:
             bind = self.bind_call(cs, c, self_term=selft)
             if bind is None:
                 continue
+            # arguments that are themselves results of helpers spliced earlier are read through as well
+            bind = {k: subst(v, repl) if isinstance(v, tuple) else v for k, v in bind.items()}
             tagx = f"@{getattr(e.node, 'lineno', 0)}:{getattr(e.node, 'col_offset', 0)}"
 
             def retag(x):
